@@ -29,6 +29,44 @@ thread_local! {
     static INT_AT: Cell<u64> = const { Cell::new(0) };
     static INT_FIRED: Cell<u64> = const { Cell::new(0) };
     static TICK_BUDGET: Cell<u64> = const { Cell::new(u64::MAX) };
+    static P_TRACE_ON: Cell<bool> = const { Cell::new(false) };
+    static P_TRACE_POS: Cell<usize> = const { Cell::new(0) };
+    static P_TRACE: RefCell<[usize; P_TRACE_LEN]> = const { RefCell::new([usize::MAX; P_TRACE_LEN]) };
+}
+
+/// Number of code addresses the address trace keeps.
+pub const P_TRACE_LEN: usize = 256;
+
+/// Called after [`tick`] with the address of the instruction about to be dispatched; keeps
+/// the last [`P_TRACE_LEN`] addresses while the trace is switched on.
+#[inline(always)]
+pub fn trace_p(p: usize) {
+    if P_TRACE_ON.get() {
+        let i = P_TRACE_POS.get();
+        P_TRACE.with(|t| t.borrow_mut()[i % P_TRACE_LEN] = p);
+        P_TRACE_POS.set(i.wrapping_add(1));
+    }
+}
+
+/// Switch the address trace on (clearing it) or off.
+pub fn set_p_trace(on: bool) {
+    P_TRACE_ON.set(on);
+    P_TRACE_POS.set(0);
+    P_TRACE.with(|t| *t.borrow_mut() = [usize::MAX; P_TRACE_LEN]);
+}
+
+/// The recorded addresses, oldest first.
+pub fn p_trace() -> Vec<usize> {
+    let n = P_TRACE_POS.get();
+    P_TRACE.with(|t| {
+        let t = t.borrow();
+        (n.saturating_sub(P_TRACE_LEN)..n).map(|i| t[i % P_TRACE_LEN]).collect()
+    })
+}
+
+/// Debug text of the instruction at code address `addr`.
+pub fn instr_text(machine: &Machine, addr: usize) -> String {
+    machine.code.get(addr).map(|i| format!("{:?}", i)).unwrap_or_else(|| "<oob>".into())
 }
 
 /// Called once per dispatch-loop iteration. Returns `true` when the loop must
